@@ -659,6 +659,12 @@ pub fn op_alphabet() -> Vec<(&'static str, Op)> {
         ("InlineImage:indexed", parsed_inline(10)),
         ("InlineImage:parms", parsed_inline(9)),
         ("InlineImage:built", built_inline()),
+        // names that contain the number sign: written verbatim, `#41` would read back as `A` and `#2 ` as a broken escape
+        // (appended at the end: recorded replays address the alphabet by index)
+        ("XObject:name-with-#41", Op::XObject { name: "Im#41".into() }),
+        ("GraphicsState:name-with-#", Op::GraphicsState { name: "GS#2".into() }),
+        ("TextFont:name-with-#231", Op::TextFont { name: "F#231".into(), size: 9.0 }),
+        ("BeginMarkedContent:tag-with-#", Op::BeginMarkedContent { tag: "T#20#".into(), properties: Some(Primitive::Name("#".into())) }),
     ]
 }
 /// an inline image operation as the parser produces it
